@@ -314,8 +314,26 @@ func TestC09(t *testing.T) {
 			time.Sleep(time.Duration(5+c.ID%40) * time.Millisecond)
 			end.CloseRaced = true
 		}
+		var pending *vp.AcceptHandle
+		if p.PeerGoneFirst && pr.kind != "mux" && pr.grpcServer != nil {
+			pending = vp.GRPCAcceptServe(pr.hostGRPC, nextID(), "pending")
+			time.Sleep(100 * time.Millisecond)
+			within(brokerH, pr.grpcServer.Stop)
+			time.Sleep(400 * time.Millisecond)
+			end.PeerGone = true
+		}
 		ok, _, _ := within(brokerH, pr.close)
 		end.ClosedOK = ok
+		if pending != nil {
+			select {
+			case <-pending.Done:
+			case <-time.After(brokerH):
+				end.PendingStuck = true
+				_, _, dump := within(time.Millisecond, func() { time.Sleep(time.Second) })
+				end.PendingDump = trunc(dump, 4000)
+				pending.Stop()
+			}
+		}
 		if stormDone != nil {
 			select {
 			case <-stormDone:
